@@ -330,11 +330,10 @@ structure Event where
   data : List (String × Val)
   deriving Repr, Inhabited, BEq
 
-/-- `persistence::SerializableEvent`; `subNs` is the field `timestamp_subms_ns` added by the repair -/
+/-- `persistence::SerializableEvent`: the timestamp in whole milliseconds only -/
 structure SerEvent where
   etype : String
   tsMs : Int
-  subNs : Nat
   fields : List (String × SV)
   deriving Repr, Inhabited, BEq
 
@@ -346,27 +345,31 @@ def ofMs (m : Int) : Int := m * 1000000
 
 /-- `From<&Event> for SerializableEvent` -/
 def serOfEvent (e : Event) : SerEvent :=
-  { etype := e.etype, tsMs := msOf e.ts, subNs := (e.ts % 1000000).toNat, fields := v2sM e.data }
+  { etype := e.etype, tsMs := msOf e.ts, fields := v2sM e.data }
 
 /-- `From<SerializableEvent> for Event` -/
 def eventOfSer (s : SerEvent) : Event :=
-  { etype := s.etype, ts := ofMs s.tsMs + s.subNs, data := s2vM s.fields }
-
-/-- the conversion before the repair: no sub-millisecond part -/
-def eventOfSerOld (s : SerEvent) : Event :=
   { etype := s.etype, ts := ofMs s.tsMs, data := s2vM s.fields }
 
+/-- a timestamp without sub-millisecond part -/
+def wholeTs (t : Int) : Bool := t % 1000000 == 0
+
+/-- the guard of finding `C20-submillisecond-event-timestamps`: an event whose timestamp is a
+whole number of milliseconds survives the conversion, any other comes back truncated -/
+def Event.whole (e : Event) : Bool := wholeTs e.ts
+
+/-- what `eventOfSer ∘ serOfEvent` does to an event -/
+def Event.truncMs (e : Event) : Event := { e with ts := ofMs (msOf e.ts) }
+
 def encSE (e : SerEvent) : Json :=
-  .obj [("event_type", .str e.etype), ("timestamp_ms", .int e.tsMs),
-        ("timestamp_subms_ns", .int e.subNs), ("fields", encMap encSV e.fields)]
+  .obj [("event_type", .str e.etype), ("timestamp_ms", .int e.tsMs), ("fields", encMap encSV e.fields)]
 
 def decSE : Json → Option SerEvent
   | .obj kvs => do
     let ty ← req kvs "event_type" decStr
     let ms ← req kvs "timestamp_ms" decInt
-    let sub ← dflt kvs "timestamp_subms_ns" decNat 0
     let fs ← req kvs "fields" (decMap decSV)
-    pure { etype := ty, tsMs := ms, subNs := sub, fields := fs }
+    pure { etype := ty, tsMs := ms, fields := fs }
   | _ => none
 
 /-! ## component checkpoints -/
@@ -375,9 +378,9 @@ def decSE : Json → Option SerEvent
 structure PartWinCkpt where
   events : List SerEvent
   windowStartMs : Option Int
-  /-- added by the repair of the sliding count window (`#[serde(default)]`) -/
+  /-- `events_since_emit` (`#[serde(default)]`): the slide counter of a partitioned sliding count window -/
   eventsSinceEmit : Option Nat
-  /-- `window_start_subms_ns`, added by the repair of the millisecond truncation -/
+  /-- `window_start_subms_ns` (`#[serde(default)]`): sub-millisecond part of `window_start_ms` -/
   windowStartSub : Nat
   deriving Repr, Inhabited, BEq
 
@@ -401,18 +404,11 @@ structure WindowCkpt where
   windowStartMs : Option Int
   lastEmitMs : Option Int
   partitions : List (String × PartWinCkpt)
-  /-- added by the repair of the sliding count window (`#[serde(default)]`) -/
-  eventsSinceEmit : Option Nat
-  /-- `window_start_subms_ns` / `last_emit_subms_ns`, added by the repair of the millisecond truncation -/
-  windowStartSub : Nat
-  lastEmitSub : Nat
   deriving Repr, Inhabited, BEq
 
 def encWC (w : WindowCkpt) : Json :=
   .obj [("events", encList encSE w.events), ("window_start_ms", encOpt .int w.windowStartMs),
-        ("last_emit_ms", encOpt .int w.lastEmitMs), ("partitions", encMap encPWC w.partitions),
-        ("events_since_emit", encOpt (fun n : Nat => .int n) w.eventsSinceEmit),
-        ("window_start_subms_ns", .int w.windowStartSub), ("last_emit_subms_ns", .int w.lastEmitSub)]
+        ("last_emit_ms", encOpt .int w.lastEmitMs), ("partitions", encMap encPWC w.partitions)]
 
 def decWC : Json → Option WindowCkpt
   | .obj kvs => do
@@ -420,11 +416,7 @@ def decWC : Json → Option WindowCkpt
     let ws ← optF kvs "window_start_ms" decInt
     let le ← optF kvs "last_emit_ms" decInt
     let ps ← req kvs "partitions" (decMap decPWC)
-    let se ← optF kvs "events_since_emit" decNat
-    let wsub ← dflt kvs "window_start_subms_ns" decNat 0
-    let lsub ← dflt kvs "last_emit_subms_ns" decNat 0
-    pure { events := ev, windowStartMs := ws, lastEmitMs := le, partitions := ps, eventsSinceEmit := se,
-           windowStartSub := wsub, lastEmitSub := lsub }
+    pure { events := ev, windowStartMs := ws, lastEmitMs := le, partitions := ps }
   | _ => none
 
 /-- `StackEntryCheckpoint` -/
@@ -826,9 +818,7 @@ def subOf (t : Int) : Nat := (t % 1000000).toNat
 /-- `persistence::timestamp_from_parts` -/
 def joinTs (ms : Int) (sub : Nat) : Int := ofMs ms + sub
 
-def emptyWC : WindowCkpt :=
-  { events := [], windowStartMs := none, lastEmitMs := none, partitions := [], eventsSinceEmit := none,
-    windowStartSub := 0, lastEmitSub := 0 }
+def emptyWC : WindowCkpt := { events := [], windowStartMs := none, lastEmitMs := none, partitions := [] }
 
 def emptyPWC : PartWinCkpt := { events := [], windowStartMs := none, eventsSinceEmit := none, windowStartSub := 0 }
 
@@ -855,18 +845,16 @@ def TumblingSt.wm (dur : Int) (w : TumblingSt) (t : Int) : TumblingSt × Emit :=
   | some s => if t ≥ s + dur ∧ w.buf ≠ [] then ({ buf := [], start := some t }, some w.buf) else (w, none)
   | none => (w, none)
 
-/-- `TumblingWindow::checkpoint` -/
+/-- `TumblingWindow::checkpoint`: `window_start` in whole milliseconds -/
 def TumblingSt.ckpt (w : TumblingSt) : WindowCkpt :=
-  { emptyWC with events := w.buf.map serOfEvent, windowStartMs := w.start.map msOf,
-                 windowStartSub := (w.start.map subOf).getD 0 }
+  { emptyWC with events := w.buf.map serOfEvent, windowStartMs := w.start.map msOf }
 
 /-- `TumblingWindow::restore` -/
 def TumblingSt.restore (cp : WindowCkpt) : TumblingSt :=
-  { buf := cp.events.map eventOfSer, start := cp.windowStartMs.map fun ms => joinTs ms cp.windowStartSub }
+  { buf := cp.events.map eventOfSer, start := cp.windowStartMs.map ofMs }
 
-/-- `TumblingWindow::restore` before the repair of the millisecond truncation -/
-def TumblingSt.restoreOld (cp : WindowCkpt) : TumblingSt :=
-  { buf := cp.events.map eventOfSerOld, start := cp.windowStartMs.map ofMs }
+/-- no sub-millisecond timestamp in the state (guard of the sub-millisecond finding) -/
+def TumblingSt.Whole (w : TumblingSt) : Bool := w.buf.all Event.whole && w.start.all wholeTs
 
 /-- the prefix `events.iter().position(|e| e.timestamp >= cutoff)` drains -/
 def dropExpired (cutoff : Int) (l : List Event) : List Event := l.dropWhile fun e => e.ts < cutoff
@@ -894,11 +882,12 @@ def SlidingSt.wm (size slide : Int) (w : SlidingSt) (t : Int) : SlidingSt × Emi
   if emit then ({ buf := buf, lastEmit := some t }, some buf) else ({ buf := buf, lastEmit := w.lastEmit }, none)
 
 def SlidingSt.ckpt (w : SlidingSt) : WindowCkpt :=
-  { emptyWC with events := w.buf.map serOfEvent, lastEmitMs := w.lastEmit.map msOf,
-                 lastEmitSub := (w.lastEmit.map subOf).getD 0 }
+  { emptyWC with events := w.buf.map serOfEvent, lastEmitMs := w.lastEmit.map msOf }
 
 def SlidingSt.restore (cp : WindowCkpt) : SlidingSt :=
-  { buf := cp.events.map eventOfSer, lastEmit := cp.lastEmitMs.map fun ms => joinTs ms cp.lastEmitSub }
+  { buf := cp.events.map eventOfSer, lastEmit := cp.lastEmitMs.map ofMs }
+
+def SlidingSt.Whole (w : SlidingSt) : Bool := w.buf.all Event.whole && w.lastEmit.all wholeTs
 
 /-- `CountWindow` (`count` is configuration) -/
 structure CountSt where
@@ -914,11 +903,17 @@ def CountSt.ckpt (w : CountSt) : WindowCkpt := { emptyWC with events := w.buf.ma
 
 def CountSt.restore (cp : WindowCkpt) : CountSt := { buf := cp.events.map eventOfSer }
 
+def CountSt.Whole (w : CountSt) : Bool := w.buf.all Event.whole
+
 /-- `SlidingCountWindow` (`window_size`, `slide_size` are configuration) -/
 structure SlidingCountSt where
   buf : List Event
   since : Nat
   deriving Repr, Inhabited, BEq
+
+/-- `SlidingCountWindow::new`: the counter starts at `slide - size` (saturating), so that the first
+emission is due as soon as the window is first full also when the slide exceeds the size -/
+def SlidingCountSt.fresh (size slide : Nat) : SlidingCountSt := { buf := [], since := slide - size }
 
 /-- `SlidingCountWindow::add_shared` -/
 def SlidingCountSt.add (size slide : Nat) (w : SlidingCountSt) (e : Event) : SlidingCountSt × Emit :=
@@ -928,17 +923,18 @@ def SlidingCountSt.add (size slide : Nat) (w : SlidingCountSt) (e : Event) : Sli
   if buf.length ≥ size ∧ since ≥ slide then ({ buf := buf, since := 0 }, some buf)
   else ({ buf := buf, since := since }, none)
 
-/-- `SlidingCountWindow::checkpoint` (since the repair: the slide counter is stored) -/
+/-- `SlidingCountWindow::checkpoint`: the buffer only — the slide counter is not stored -/
 def SlidingCountSt.ckpt (w : SlidingCountSt) : WindowCkpt :=
-  { emptyWC with events := w.buf.map serOfEvent, eventsSinceEmit := some w.since }
+  { emptyWC with events := w.buf.map serOfEvent }
 
-/-- `SlidingCountWindow::restore`; a checkpoint without the field (older version) gives 0 -/
+/-- `SlidingCountWindow::restore`: `events_since_emit = 0` (finding `C19-sliding-count-counter-reset`;
+an existing test pins this reset) -/
 def SlidingCountSt.restore (cp : WindowCkpt) : SlidingCountSt :=
-  { buf := cp.events.map eventOfSer, since := cp.eventsSinceEmit.getD 0 }
-
-/-- `SlidingCountWindow::restore` before the repair: `events_since_emit = 0` -/
-def SlidingCountSt.restoreOld (cp : WindowCkpt) : SlidingCountSt :=
   { buf := cp.events.map eventOfSer, since := 0 }
+
+/-- the counter is 0 (just emitted, or nothing added yet): the guard under which a plain sliding
+count window does come back -/
+def SlidingCountSt.Whole (w : SlidingCountSt) : Bool := w.buf.all Event.whole && w.since == 0
 
 /-- `SessionWindow` (`gap` is configuration) -/
 structure SessionSt where
@@ -961,11 +957,12 @@ def SessionSt.wm (gap : Int) (w : SessionSt) (t : Int) : SessionSt × Emit :=
 
 /-- `SessionWindow::checkpoint`: `last_event_time` travels in `window_start_ms` -/
 def SessionSt.ckpt (w : SessionSt) : WindowCkpt :=
-  { emptyWC with events := w.buf.map serOfEvent, windowStartMs := w.last.map msOf,
-                 windowStartSub := (w.last.map subOf).getD 0 }
+  { emptyWC with events := w.buf.map serOfEvent, windowStartMs := w.last.map msOf }
 
 def SessionSt.restore (cp : WindowCkpt) : SessionSt :=
-  { buf := cp.events.map eventOfSer, last := cp.windowStartMs.map fun ms => joinTs ms cp.windowStartSub }
+  { buf := cp.events.map eventOfSer, last := cp.windowStartMs.map ofMs }
+
+def SessionSt.Whole (w : SessionSt) : Bool := w.buf.all Event.whole && w.last.all wholeTs
 
 /-! ### partitioned windows: one sub-window per key (`FxHashMap<String, W>` as an association list) -/
 
@@ -992,26 +989,14 @@ def partWmDrop {σ} (wm : σ → Int → σ × Emit) (wins : List (String × σ)
   ((wins.filter fun kv => ((wm kv.2 t).2).isNone).map fun kv => (kv.1, (wm kv.2 t).1),
    (wins.map fun kv => ((wm kv.2 t).2).getD []).flatten)
 
-/-- the part of a sub-window's `WindowCheckpoint` that `PartitionedWindowCheckpoint` keeps -/
-def pwcOf (cp : WindowCkpt) : PartWinCkpt :=
-  { events := cp.events, windowStartMs := cp.windowStartMs, eventsSinceEmit := cp.eventsSinceEmit,
-    windowStartSub := cp.windowStartSub }
+/-- a partition of `PartitionedTumblingWindow::checkpoint`: the sub-millisecond part of
+`window_start` is kept (`window_start_subms_ns`) -/
+def tumblingPwc (w : TumblingSt) : PartWinCkpt :=
+  { emptyPWC with events := w.buf.map serOfEvent, windowStartMs := w.start.map msOf,
+                  windowStartSub := (w.start.map subOf).getD 0 }
 
-/-- the `WindowCheckpoint` handed to the sub-window's `restore` -/
-def wcOf (p : PartWinCkpt) : WindowCkpt :=
-  { emptyWC with events := p.events, windowStartMs := p.windowStartMs, eventsSinceEmit := p.eventsSinceEmit,
-                 windowStartSub := p.windowStartSub }
-
-/-- `Partitioned{Session,Tumbling}Window::checkpoint`, `create_checkpoint` for
-`PartitionedWindow` / `PartitionedSlidingCountWindow` -/
-def partCkpt {σ} (ck : σ → WindowCkpt) (wins : List (String × σ)) : WindowCkpt :=
-  { emptyWC with partitions := wins.map fun kv => (kv.1, pwcOf (ck kv.2)) }
-
-/-- `Partitioned*Window::restore` (`windows.clear()`, one insert per checkpointed partition) and
-`restore_checkpoint` for `PartitionedWindow` / `PartitionedSlidingCountWindow` (fresh engine: the
-map is empty, `entry().or_insert_with(new)` then `restore`) -/
-def partRestore {σ} (rs : WindowCkpt → σ) (cp : WindowCkpt) : List (String × σ) :=
-  cp.partitions.map fun kv => (kv.1, rs (wcOf kv.2))
+def tumblingOfPwc (p : PartWinCkpt) : TumblingSt :=
+  { buf := p.events.map eventOfSer, start := p.windowStartMs.map fun ms => joinTs ms p.windowStartSub }
 
 /-- `PartitionedSlidingWindow::checkpoint` stores `last_emit` in the `window_start_ms` slot … -/
 def slidingPwc (w : SlidingSt) : PartWinCkpt :=
@@ -1021,6 +1006,37 @@ def slidingPwc (w : SlidingSt) : PartWinCkpt :=
 /-- … and `PartitionedSlidingWindow::restore` reads it back from there -/
 def slidingOfPwc (p : PartWinCkpt) : SlidingSt :=
   { buf := p.events.map eventOfSer, lastEmit := p.windowStartMs.map fun ms => joinTs ms p.windowStartSub }
+
+/-- `PartitionedSessionWindow::checkpoint` / `restore` (`last_event_time` in `window_start_ms`) -/
+def sessionPwc (w : SessionSt) : PartWinCkpt :=
+  { emptyPWC with events := w.buf.map serOfEvent, windowStartMs := w.last.map msOf,
+                  windowStartSub := (w.last.map subOf).getD 0 }
+
+def sessionOfPwc (p : PartWinCkpt) : SessionSt :=
+  { buf := p.events.map eventOfSer, last := p.windowStartMs.map fun ms => joinTs ms p.windowStartSub }
+
+/-- `create_checkpoint` / `restore_checkpoint`, `RuntimeOp::PartitionedWindow` (count windows) -/
+def countPwc (w : CountSt) : PartWinCkpt := { emptyPWC with events := w.buf.map serOfEvent }
+
+def countOfPwc (p : PartWinCkpt) : CountSt := { buf := p.events.map eventOfSer }
+
+/-- `create_checkpoint`, `RuntimeOp::PartitionedSlidingCountWindow`: the slide counter is read
+through `SlidingCountWindow::events_since_emit()` … -/
+def slidingCountPwc (w : SlidingCountSt) : PartWinCkpt :=
+  { emptyPWC with events := w.buf.map serOfEvent, eventsSinceEmit := some w.since }
+
+/-- … and `restore_checkpoint` puts it back with `set_events_since_emit` after `restore` -/
+def slidingCountOfPwc (p : PartWinCkpt) : SlidingCountSt :=
+  { buf := p.events.map eventOfSer, since := p.eventsSinceEmit.getD 0 }
+
+/-- `Partitioned*Window::checkpoint` and the two `Partitioned*State` arms of `create_checkpoint` -/
+def partCkpt {σ} (ck : σ → PartWinCkpt) (wins : List (String × σ)) : WindowCkpt :=
+  { emptyWC with partitions := wins.map fun kv => (kv.1, ck kv.2) }
+
+/-- `Partitioned*Window::restore` (`windows.clear()`, one insert per checkpointed partition) and
+`restore_checkpoint` for the two `Partitioned*State` ops (fresh engine: the map is empty) -/
+def partRestore {σ} (rs : PartWinCkpt → σ) (cp : WindowCkpt) : List (String × σ) :=
+  cp.partitions.map fun kv => (kv.1, rs kv.2)
 
 /-- the window operator of one stream (`WindowType` and the two `Partitioned*State` runtime ops) -/
 inductive WinSt where
@@ -1036,7 +1052,9 @@ inductive WinSt where
   | pSlidingCount (ws : List (String × SlidingCountSt))
   deriving Repr, Inhabited, BEq
 
-/-- the state of the same operator in a freshly loaded engine -/
+/-- the same operator in a freshly loaded engine, as far as `restore` looks at it: only its kind
+matters, every field of the state is overwritten (`windows.clear()` for the partitioned forms;
+the two `Partitioned*State` maps of a freshly loaded engine are empty) -/
 def WinSt.fresh : WinSt → WinSt
   | .tumbling _ => .tumbling { buf := [], start := none }
   | .sliding _ => .sliding { buf := [], lastEmit := none }
@@ -1056,11 +1074,11 @@ def WinSt.ckpt : WinSt → WindowCkpt
   | .count w => w.ckpt
   | .slidingCount w => w.ckpt
   | .session w => w.ckpt
-  | .pTumbling ws => partCkpt TumblingSt.ckpt ws
-  | .pSliding ws => { emptyWC with partitions := ws.map fun kv => (kv.1, slidingPwc kv.2) }
-  | .pSession ws => partCkpt SessionSt.ckpt ws
-  | .pCount ws => partCkpt CountSt.ckpt ws
-  | .pSlidingCount ws => partCkpt SlidingCountSt.ckpt ws
+  | .pTumbling ws => partCkpt tumblingPwc ws
+  | .pSliding ws => partCkpt slidingPwc ws
+  | .pSession ws => partCkpt sessionPwc ws
+  | .pCount ws => partCkpt countPwc ws
+  | .pSlidingCount ws => partCkpt slidingCountPwc ws
 
 /-- `Engine::restore_checkpoint`, window arms: the operator of the freshly loaded engine decides
 which `restore` runs -/
@@ -1071,11 +1089,28 @@ def WinSt.restore (fresh : WinSt) (cp : WindowCkpt) : WinSt :=
   | .count _ => .count (CountSt.restore cp)
   | .slidingCount _ => .slidingCount (SlidingCountSt.restore cp)
   | .session _ => .session (SessionSt.restore cp)
-  | .pTumbling _ => .pTumbling (partRestore TumblingSt.restore cp)
-  | .pSliding _ => .pSliding (cp.partitions.map fun kv => (kv.1, slidingOfPwc kv.2))
-  | .pSession _ => .pSession (partRestore SessionSt.restore cp)
-  | .pCount _ => .pCount (partRestore CountSt.restore cp)
-  | .pSlidingCount _ => .pSlidingCount (partRestore SlidingCountSt.restore cp)
+  | .pTumbling _ => .pTumbling (partRestore tumblingOfPwc cp)
+  | .pSliding _ => .pSliding (partRestore slidingOfPwc cp)
+  | .pSession _ => .pSession (partRestore sessionOfPwc cp)
+  | .pCount _ => .pCount (partRestore countOfPwc cp)
+  | .pSlidingCount _ => .pSlidingCount (partRestore slidingCountOfPwc cp)
+
+/-- the guard under which a window operator comes back from a checkpoint: no buffered event
+carries a sub-millisecond timestamp (finding `C20-submillisecond-event-timestamps`; for the plain
+time windows this includes their own start / last-emit time, which the partitioned forms keep
+exactly), and a plain sliding count window has its slide counter at 0 (finding
+`C19-sliding-count-counter-reset`) -/
+def WinSt.Restorable : WinSt → Bool
+  | .tumbling w => w.Whole
+  | .sliding w => w.Whole
+  | .count w => w.Whole
+  | .slidingCount w => w.Whole
+  | .session w => w.Whole
+  | .pTumbling ws => ws.all fun kv => kv.2.buf.all Event.whole
+  | .pSliding ws => ws.all fun kv => kv.2.buf.all Event.whole
+  | .pSession ws => ws.all fun kv => kv.2.buf.all Event.whole
+  | .pCount ws => ws.all fun kv => kv.2.buf.all Event.whole
+  | .pSlidingCount ws => ws.all fun kv => kv.2.buf.all Event.whole
 
 /-- the configuration of a window operator, from the program text -/
 structure WinCfg where
@@ -1111,7 +1146,7 @@ def WinSt.step (c : WinCfg) (pk : Event → String) : WinSt → WinOp → WinSt 
   | .pSession ws, .wm t => let r := partWmDrop (SessionSt.wm c.dur) ws t; (.pSession r.1, r.2)
   | .pCount ws, .add e => let r := partAdd pk { buf := [] } (CountSt.add c.n) ws e; (.pCount r.1, r.2.getD [])
   | .pCount ws, .wm _ => (.pCount ws, [])
-  | .pSlidingCount ws, .add e => let r := partAdd pk { buf := [], since := 0 } (SlidingCountSt.add c.n c.m) ws e; (.pSlidingCount r.1, r.2.getD [])
+  | .pSlidingCount ws, .add e => let r := partAdd pk (SlidingCountSt.fresh c.n c.m) (SlidingCountSt.add c.n c.m) ws e; (.pSlidingCount r.1, r.2.getD [])
   | .pSlidingCount ws, .wm _ => (.pSlidingCount ws, [])
 
 /-- outputs of a whole continuation -/
@@ -1194,10 +1229,16 @@ def KC.view (kc : KC) : KC := if kc.deferred.isSome then kc else { kc with alias
 
 def Run.view (r : Run) : Run := { r with kleene := r.kleene.map KC.view }
 
-/-- the losses of `Run::from_checkpoint` that are *not* repaired: a pending negation, a deferred
-Kleene predicate -/
+/-- every event the run holds has a whole-millisecond timestamp -/
+def Run.Whole (r : Run) : Bool :=
+  r.stack.all (fun p => p.1.whole) && r.captured.all (fun p => p.2.whole)
+    && (match r.andState with | some l => l.all (fun p => p.2.whole) | none => true)
+    && (match r.kleene with | some kc => kc.events.all Event.whole | none => true)
+
+/-- the guard under which a run comes back: no pending negation, no deferred Kleene predicate
+(finding `C19-kleene-deferred`), no sub-millisecond event (finding `C20-submillisecond-event-timestamps`) -/
 def Run.Restorable (r : Run) : Bool :=
-  r.pendingNegs.isEmpty && (match r.kleene with | some kc => kc.deferred.isNone | none => true)
+  r.pendingNegs.isEmpty && (match r.kleene with | some kc => kc.deferred.isNone | none => true) && r.Whole
 
 /-- `complete_run`: with a deferred predicate the combinations are enumerated
 (`CompleteMulti`), otherwise there is exactly one match -/
@@ -1319,6 +1360,9 @@ def JoinSt.restore (windowNs : Int) (c : JoinCkpt) : JoinSt :=
 (`add_event` pushes `(event.timestamp, event)`), and the heap is a heap -/
 def JoinSt.WF (j : JoinSt) : Prop :=
   (∀ sb ∈ j.buffers, ∀ kb ∈ sb.2, ∀ p ∈ kb.2, p.1 = p.2.ts) ∧ HeapSorted j.queue
+
+/-- no buffered event carries a sub-millisecond timestamp (guard of the sub-millisecond finding) -/
+def JoinSt.Whole (j : JoinSt) : Prop := ∀ sb ∈ j.buffers, ∀ kb ∈ sb.2, ∀ p ∈ kb.2, p.2.whole = true
 
 /-! ## distinct, limit, variables, watermarks (engine/mod.rs, watermark.rs) -/
 
@@ -1498,6 +1542,9 @@ invariants of the hash maps and buffers (they hold of every reachable state) and
 unrepaired losses — no pending negation and no deferred Kleene predicate in any run -/
 structure EngineSt.Restorable (s : EngineSt) (vars0 : List (String × Val)) (src0 : List (String × SrcWm)) : Prop where
   names : (s.streams.map (·.1)).Nodup
+  /-- findings `C20-submillisecond-event-timestamps` / `C19-sliding-count-counter-reset` -/
+  windows : ∀ kv ∈ s.streams, ∀ w, kv.2.win = some w → w.Restorable = true
+  joinWhole : ∀ kv ∈ s.streams, ∀ j, kv.2.join = some j → j.Whole
   sase : ∀ kv ∈ s.streams, ∀ x, kv.2.sase = some x → x.Restorable = true
   join : ∀ kv ∈ s.streams, ∀ j, kv.2.join = some j → j.WF
   distinct : ∀ kv ∈ s.streams, ∀ d, kv.2.distinct = some d → d.Nodup
@@ -1556,7 +1603,7 @@ open Varpulis.Ckpt
 
 def ev (id : Int) : Event := { etype := "T", ts := id * 1000000000, data := [("id", .int id)] }
 
-def bEv : Event := { etype := "B", ts := 5, data := [] }
+def bEv : Event := { etype := "B", ts := 5000000, data := [] }
 
 /-- a run in the middle of `A -> all B -> C` (no deferred predicate) -/
 def midRun : Run :=
